@@ -146,7 +146,7 @@ def _val(cls: str, cplx: bool, a: int, b: int):
 def gen_block(ds, d: int, cls: str, cplx: bool, tag: str, allow_zero: bool = False) -> np.ndarray:
     n = int(PSI[6, d])
     arr = np.zeros(n, dtype=np.complex128 if cplx else np.float64)
-    mode = ds.pick(["few", "dense", "stride"], f"{tag}.density", (0.45, 0.35, 0.2))
+    mode = ds.pick(["few", "dense", "stride"], f"{tag}.density", (0.45, 0.35, 0.2)) if d <= 8 else "few"
     if mode == "few":
         nnz = ds.choose(5, f"{tag}.nnz") + (0 if allow_zero else 1)
         for j in range(min(nnz, n)):
@@ -209,12 +209,12 @@ def cmp_list(got, expected: pm.Poly, max_deg: int, exact: bool, what: str, vpref
 # --------------------------------------------------------------------------- operations
 OPLIST = ["mul", "diff", "poisson", "multiply", "poisson_bracket", "differentiate", "jacobian", "power",
           "substitute_linear", "substitute_affine", "add", "scale", "integrate", "evaluate",
-          "l_integrate", "l_evaluate", "add_inplace", "subst_coords"]
-OPW = [0.2, 0.12, 0.1, 0.1, 0.08, 0.06, 0.05, 0.05, 0.04, 0.04, 0.03, 0.02, 0.04, 0.03, 0.02, 0.01, 0.01, 0.01]
+          "l_integrate", "l_evaluate", "add_inplace", "subst_coords", "reduced_monomial"]
+OPW = [0.2, 0.12, 0.1, 0.1, 0.08, 0.06, 0.05, 0.05, 0.04, 0.04, 0.03, 0.02, 0.04, 0.03, 0.02, 0.01, 0.01, 0.01, 0.01]
 DEGP = [(1, 1), (2, 1), (2, 2), (1, 0), (3, 2), (3, 3), (0, 2), (4, 2), (4, 4), (6, 2), (5, 3)]
 DEGP_W = [0.22, 0.15, 0.2, 0.04, 0.12, 0.08, 0.03, 0.07, 0.03, 0.03, 0.03]
 DEGP_W_HEAVY = [0.02, 0.02, 0.06, 0.0, 0.1, 0.2, 0.0, 0.15, 0.25, 0.1, 0.1]
-OPW_HEAVY = [0.4, 0.15, 0.15, 0.1, 0.08, 0.04, 0.03, 0.03, 0.01, 0.01, 0, 0, 0, 0, 0, 0, 0, 0]
+OPW_HEAVY = [0.4, 0.15, 0.15, 0.1, 0.08, 0.04, 0.03, 0.03, 0.01, 0.01, 0, 0, 0, 0, 0, 0, 0, 0, 0]
 SIM_MAX_PAIR = 3600  # p.size*q.size bound inside the simulator
 
 
@@ -272,16 +272,24 @@ class Case:
         self.desc.update(deg=self.dp, var=self.var, nnz=int(np.count_nonzero(self.p)), complex=self.cplx)
 
     def _gen_diff(self):
-        self._one([6, 8, 4, 5] if self.heavy else [2, 1, 3, 4, 0, 6, 8])
+        self._one([6, 8, 4, 5] if self.heavy else [2, 1, 3, 4, 0, 6, 8, 17, 24, 30])
 
     def _gen_integrate(self):
-        self._one([2, 1, 3, 0, 5, 7])
+        self._one([2, 1, 3, 0, 5, 7, 16, 23, 29])
+
+    def _point(self, pcls):
+        pt = []
+        for i in range(6):
+            kind = self.ds.choose(4, f"pt[{i}].kind", (0.6, 0.25, 0.1, 0.05))
+            v = _val(pcls, True, self.ds.choose(10, f"pt[{i}]"), i)
+            pt.append(v if kind == 0 else (0.0 if kind == 1 else (complex(v.real, 0.0) if kind == 2 else v * 0.0 + 1.0)))
+        return np.array(pt, dtype=np.complex128)
 
     def _gen_evaluate(self):
         self.dp = self.ds.pick([2, 1, 3, 0, 5, 8], "degree")
         self.p = gen_block(self.ds, self.dp, self.cls, self.cplx, "p")
         pcls = "small" if self.cls == "large" else self.cls
-        self.point = np.array([_val(pcls, True, self.ds.choose(10, f"pt[{i}]"), i) for i in range(6)], dtype=np.complex128)
+        self.point = self._point(pcls)
         self.exact = False
         self.desc.update(deg=self.dp)
 
@@ -320,7 +328,7 @@ class Case:
     def _gen_l_evaluate(self):
         self._lists(two=False)
         pcls = "small" if self.cls == "large" else self.cls
-        self.point = np.array([_val(pcls, True, self.ds.choose(10, f"pt[{i}]"), i) for i in range(6)], dtype=np.complex128)
+        self.point = self._point(pcls)
         self.exact = False
 
     def _gen_add_inplace(self):
@@ -355,6 +363,17 @@ class Case:
                 sh[ds.choose(6, f"shift[{j}].i")] = float(SMALL[ds.choose(6, f"shift[{j}].v")])
             self.shifts = sh
         self.desc.update(max_deg=self.max_deg, C_complex=bool(np.iscomplexobj(C)))
+
+    def _gen_reduced_monomial(self):
+        ds = self.ds
+        cl = "small" if self.cls in ("large", "float") else self.cls
+        self.cls, self.exact = cl, False
+        self.k = np.array([ds.choose(4, f"k[{i}]") for i in range(6)], dtype=np.int64)
+        self.point = self._point(cl)
+        self.var = ds.choose(6, "var")
+        self.exp_change = ds.pick([0, -1, 1], "exp_change")
+        if self.k[self.var] + self.exp_change < 0:
+            self.exp_change = 0
 
     def _gen_subst_coords(self):
         ds = self.ds
@@ -455,6 +474,8 @@ class Case:
             return A
         if op == "subst_coords":
             return COORDS._substitute_coordinates(self.point.copy(), self.C.copy())
+        if op == "reduced_monomial":
+            return ALG._evaluate_reduced_monomial(self.k.copy(), self.point.copy(), int(self.var), int(self.exp_change))
         if op == "substitute_linear":
             return f("_substitute_linear")(cp(self.P), self.C.copy(), self.max_deg, PSI, CLMO, ENC)
         if op == "substitute_affine":
@@ -467,7 +488,7 @@ class Case:
                 "poisson_bracket": "_polynomial_poisson_bracket", "power": "_polynomial_power",
                 "differentiate": "_polynomial_differentiate", "jacobian": "_polynomial_jacobian",
                 "l_integrate": "_polynomial_integrate", "l_evaluate": "_polynomial_evaluate",
-                "add_inplace": "_polynomial_add_inplace", "subst_coords": "_poly_add", "substitute_linear": "_substitute_linear",
+                "add_inplace": "_polynomial_add_inplace", "subst_coords": "_poly_add", "reduced_monomial": "_poly_add", "substitute_linear": "_substitute_linear",
                 "substitute_affine": "_substitute_affine"}[self.op]
 
     # ---- the exact expected result and the comparison
@@ -498,6 +519,13 @@ class Case:
             mag = sum(abs(complex(v)) * float(np.prod([abs(x) ** e for x, e in zip(self.point, k)])) for k, v in p.items())
             if abs(complex(got) - exp) > 1e-12 * max(mag, 1e-300) + 1e-300:
                 raise Violation(vprefix, f"{what}: value {complex(got)} != exact {exp} (sum of |terms| {mag:.3e})")
+            return
+        if op == "reduced_monomial":
+            e = [int(self.k[i]) + (int(self.exp_change) if i == self.var else 0) for i in range(6)]
+            exp = complex(pm.evaluate({tuple(e): pm.GQ(1)}, [complex(x) for x in self.point]))
+            if abs(complex(got) - exp) > 1e-12 * max(1.0, abs(exp)):
+                raise Violation(vprefix, f"{what}: _evaluate_reduced_monomial(k={self.k.tolist()}, var={self.var}, change={self.exp_change}) at {self.point.tolist()} "
+                                         f"returned {complex(got)}, the monomial's value is {exp}")
             return
         if op == "subst_coords":
             exp = np.array([complex(sum((pm.GQ.of(complex(self.C[i, j])) * pm.GQ.of(complex(self.point[j])) for j in range(6)), pm.GQ())) for i in range(6)])
@@ -681,6 +709,23 @@ def layout_sweep(max_degree: int = 30) -> dict:
             for rest in compositions(d - a, parts - 1):
                 yield (a,) + rest
 
+    fill_fn, pack_fn = BASE._fill_exponents, BASE._pack_multiindex
+
+    @numba.njit(cache=False)
+    def fill_all(n, d, clmo):
+        out = np.empty((n, 6), dtype=np.int64)
+        for i in range(n):
+            fill_fn(i, d, clmo, out[i])
+        return out
+
+    @numba.njit(cache=False)
+    def pack_all(K):
+        out = np.empty(K.shape[0], dtype=np.int64)
+        for i in range(K.shape[0]):
+            out[i] = np.int64(pack_fn(K[i]))
+        return out
+
+    enc2 = BASE._create_encode_dict_from_clmo(CLMO)   # the helper that rebuilds the inverse lookup from a table
     total = 0
     for d in range(max_degree + 1):
         K = np.array(list(compositions(d, 6)), dtype=np.int64)
@@ -697,6 +742,18 @@ def layout_sweep(max_degree: int = 30) -> dict:
         if not np.array_equal(back[slots], K):
             i = int(np.flatnonzero(np.any(back[slots] != K, axis=1))[0])
             raise Violation("C06/layout", f"degree {d}: decode(encode({K[i].tolist()})) = {back[slots[i]].tolist()}")
+        filled = fill_all(n, d, CLMO)
+        if not np.array_equal(filled, back):
+            i = int(np.flatnonzero(np.any(filled != back, axis=1))[0])
+            raise Violation("C06/layout", f"degree {d}, slot {i}: _fill_exponents gives {filled[i].tolist()}, _decode_multiindex gives {back[i].tolist()}")
+        packed = pack_all(K)
+        if not np.array_equal(packed, np.asarray(CLMO[d]).astype(np.int64)[slots]):
+            i = int(np.flatnonzero(packed != np.asarray(CLMO[d]).astype(np.int64)[slots])[0])
+            raise Violation("C06/layout", f"degree {d}: _pack_multiindex({K[i].tolist()}) = {int(packed[i])} differs from the table entry {int(CLMO[d][slots[i]])}")
+        slots2 = enc_all(K, d, enc2)
+        if not np.array_equal(slots2, slots):
+            i = int(np.flatnonzero(slots2 != slots)[0])
+            raise Violation("C06/layout", f"degree {d}: the encode table rebuilt by _create_encode_dict_from_clmo maps {K[i].tolist()} to {int(slots2[i])}, the global one to {int(slots[i])}")
         total += n
     return {"degrees": max_degree + 1, "multi_indices": total, "exhaustive": True}
 
